@@ -242,7 +242,15 @@ func runC11(c *Ctx) {
 			arg := core.PathOf(info, u.Node.(*ast.CallExpr).Args[0])
 			ok := false
 			for _, a := range g.AtomsAt(u.Loc) {
-				call, isC := ast.Unparen(a.Expr).(*ast.CallExpr)
+				ae := ast.Unparen(a.Expr)
+				if id, isId := ae.(*ast.Ident); isId { // stale := runner.needsReload(ctx, pending)
+					if v, isV := info.Uses[id].(*types.Var); isV {
+						if rhs, _, cnt := singleDef(info, f.Body, v); cnt == 1 && rhs != nil {
+							ae = ast.Unparen(rhs)
+						}
+					}
+				}
+				call, isC := ae.(*ast.CallExpr)
 				if !isC || a.Val || core.CalleeName(info, call) != "server.runnerRef.needsReload" {
 					continue
 				}
